@@ -67,8 +67,20 @@ def run_tuned(rnd, sampler_kind, interrupt=False):
     s.rng = ScriptedRNG(fallback_seed=seed)
     s._v_calls = calls
     attrs = {}
+    earlier = rnd.choice([0, 0, 0, 1, 2])
+    desc["earlier_autotuned_runs_on_the_object"] = earlier
     with scratch() as tmp, quiet(), np.errstate(all="ignore"):
         fn = os.path.join(tmp, "c.h5")
+        # history: the same sampler object has been tuned before, with other settings and another length
+        for hrun in range(earlier):
+            try:
+                plain, _, _, _, _, _ = make_target(random.Random(seed + hrun), "normaldiag", d, False)
+                kw0 = dict(kw, learning_rate=[0.6, 0.9][hrun % 2], target_acceptance_rate=[0.4, 0.8][hrun % 2], stepsize=[2.0, 0.05][hrun % 2])
+                s.sample(os.path.join(tmp, f"pre{hrun}.h5"), plain, proposals=[9, 5][hrun % 2], overwrite_existing_file=True, disable_progressbar=True, **kw0)
+            except Exception as e:
+                desc["raised"] = "earlier run: " + repr(e)
+        s._v_transitions = []
+        calls.calls.clear()
         try:
             s.sample(fn, dist, initial_model=q0.copy(), proposals=P, overwrite_existing_file=True, disable_progressbar=True, **kw)
         except Exception as e:  # an aborting sampler is an observation (C06/C08), not a harness failure
@@ -113,7 +125,7 @@ def run(tier, seed):
     thorough = tier == "thorough"
     findings = []
     st = Suite("C16.histories", "autotuned RWMH/HMC runs (incl. NaN/inf/0 acceptance probabilities via targets returning NaN/±inf, and runs "
-               "interrupted inside a later proposal) vs model tuneRun on the observed acceptance probabilities: recorded step sizes, final step, "
+               "interrupted inside a later proposal, and runs on sampler objects that were tuned before with other settings) vs model tuneRun on the observed acceptance probabilities: recorded step sizes, final step, "
                "lengths; bit-exact; non-trivial = run with >= 2 completed proposals; distinct by chain description")
     reqs, metas = [], []
     N = 240 if thorough else 70
@@ -140,6 +152,8 @@ def run(tier, seed):
             st.count("history contains inf rate")
         if desc["interrupt_at_misfit_call"] is not None:
             st.count("interrupted")
+        if desc["earlier_autotuned_runs_on_the_object"]:
+            st.count("sampler object tuned before")
         r = Reader(ans[3:])
         msteps = r.vec()
         mfinal = r.flt()
